@@ -179,7 +179,7 @@ impl SelList {
 
 pub const SEL_TYPES: &[&str] = &["div", "span", "p", "a", "b", "li", "ul", "td", "tr", "table", "svg", "g", "math", "mi", "br", "img", "x-foo", "abcdefghijklm", "foreignobject", "title", "section", "i", "em"];
 pub const SEL_ATTRS: &[&str] = &["a", "b", "class", "id", "href", "data-x", "title", "lang", "x:y"];
-pub const SEL_VALUES: &[&str] = &["", "x", "y", "foo", "x y", "foo-bar", "Foo", "abc", "b", "1", "en", "EN", "en-US", " ", "xyz", "a&b", "-", "é"];
+pub const SEL_VALUES: &[&str] = &["", "x", "y", "foo", "x y", "foo-bar", "Foo", "abc", "b", "1", "en", "EN", "en-US", " ", "xyz", "a&b", "-", "é", "ab", "aab", "bab", "xy", "aa", "AB", "foo", "en-US", "b a"];
 pub const SEL_IDS: &[&str] = &["x", "y", "foo", "Foo", "b", "1", "abc"];
 
 /// attribute names whose values compare ASCII case-insensitively on HTML elements without a flag (HTML spec)
